@@ -1728,6 +1728,14 @@ class OR(LogicalBinaryOperator, ABC):
             projection.update(self._parent_._projection_(when_true))
         return projection
 
+    def _reset_evaluation_state_(self) -> None:
+        """
+        An evaluation that was abandoned while the right operand was being evaluated leaves the flags set.
+        """
+        super()._reset_evaluation_state_()
+        self.left_evaluated = False
+        self.right_evaluated = False
+
     def _invert_(self):
         """
         A union yields the results of its operands separately, a Not above it would negate each of them on its own.
